@@ -46,6 +46,11 @@ class Taint:
         self.counts = defaultdict(int)
         self.public_loads = defaultdict(int)      # audit trail: what was treated as public
         self.cmp_sites = []
+        # scalar integer struct fields whose every store in the library stores a public value and whose address
+        # never escapes are public (inferred; replaces a name list for fields a refactor may add or rename)
+        self.fieldH = {}            # canonical field -> reason
+        self.field_ok = set()       # canonical fields that qualify for inference
+        self._field_prepass()
         self._run()
 
     # ---------------------------------------------------------------- levels
@@ -95,6 +100,12 @@ class Taint:
                 if seg.off is not None and any(t == seg.ty and o <= seg.off and seg.off + (inst.get("size") or 1) <= o + z for (t, o, z) in self.public_fields):
                     self.public_loads["field by role (keystream position)"] += 1
                     return None
+                known, why = self.field_level(f, inst["ops"][0], inst.get("size"))
+                if known:
+                    if why is None:
+                        self.public_loads["scalar field only ever assigned public values: " + ".".join(names[-2:])] += 1
+                        return None
+                    return ("mem", "field %s, which receives a secret value at %s" % (".".join(names[-2:]), why))
                 return ("mem", "secret memory %s" % addr_str(a, self.prog))
         return ("mem", "secret memory %s" % addr_str(a, self.prog))
 
@@ -156,6 +167,74 @@ class Taint:
             return addr_str(a, self.prog)
         return None
 
+    # ---------------------------------------------------------------- inferred public fields
+    SCALARS = ("unsigned int", "int", "unsigned", "size_t", "unsigned long", "long", "unsigned char", "uint8_t", "uint16_t",
+               "uint32_t", "uint64_t", "unsigned short", "short", "char", "unsigned long long", "long long")
+
+    def canon_field(self, ty, off, size):
+        """(innermost struct type, member offset, member size) when [off, off+size) lies inside ONE integer scalar
+        member (descending through nested struct members); None otherwise."""
+        for _ in range(6):
+            t = self.prog.ditypes.get(ty)
+            if not t or t.get("kind") != "struct":
+                return None
+            hit = None
+            for m in t["members"]:
+                if m["off"] <= off and off + (size or 1) <= m["off"] + m["size"]:
+                    hit = m
+            if hit is None:
+                return None
+            mt = hit["type"].replace("const ", "").replace("volatile ", "").strip()
+            if mt in self.SCALARS:
+                return (ty, hit["off"], hit["size"])
+            if mt in self.prog.ditypes and self.prog.ditypes[mt].get("kind") == "struct":
+                ty, off = mt, off - hit["off"]
+                continue
+            return None
+        return None
+
+    def _field_of(self, f, ptr_op, size):
+        a = self.am[f.key].of(ptr_op) if ptr_op[0] in ("i", "a", "ce", "g") else None
+        if a is None or len(a.segs) < 1 or a.root[0] == "alloca" and len(a.segs) == 1:
+            return None
+        seg = a.segs[-1]
+        ty = seg.ty or (self._infer_ty(f, a) if len(a.segs) > 1 else None)
+        if not ty or seg.off is None:
+            return None
+        return self.canon_field(ty, seg.off, size)
+
+    def _field_prepass(self):
+        stored, escaped = set(), set()
+        for f in self.funcs:
+            uses = f.uses()
+            for i in f.all_insts():
+                if i["op"] == "store":
+                    k = self._field_of(f, i["ops"][1], i.get("size"))
+                    if k:
+                        stored.add(k)
+                    # a pointer to a field stored somewhere: escapes
+                    kv = self._field_of(f, i["ops"][0], 1) if i["ops"][0][0] in ("i", "a") and str(f.insts.get(i["ops"][0][1], {}).get("type", "")).endswith("*") else None
+                    if kv:
+                        escaped.add(kv)
+                elif i["op"] == "call":
+                    for o in i["ops"]:
+                        if o[0] in ("i", "a"):
+                            t = f.insts[o[1]]["type"] if o[0] == "i" else f.params[o[1]]["type"]
+                            if str(t).endswith("*"):
+                                k = self._field_of(f, o, 1)
+                                if k:
+                                    escaped.add(k)
+                                # a pointer to an enclosing object handed to a callee is fine: the callee's own
+                                # typed accesses are seen when that callee is analysed
+        self.field_ok = stored - escaped
+
+    def field_level(self, f, inst_ptr, size):
+        """(known, reason): known=True when the accessed field is an inferred-level scalar field."""
+        k = self._field_of(f, inst_ptr, size)
+        if k is None or k not in self.field_ok:
+            return False, None
+        return True, self.fieldH.get(k)
+
     # ---------------------------------------------------------------- fixpoint
     def _run(self):
         changed = True
@@ -205,6 +284,11 @@ class Taint:
                     vr = self.level(f, i["ops"][0])
                     if vr and a is not None and a.root[0] == "alloca" and len(a.segs) == 1:
                         if self._raise(self.localH[f.key], a.root[1], ("val", i["ops"][0], iid)):
+                            inner = ch = True
+                    elif vr:
+                        k = self._field_of(f, i["ops"][1], i.get("size"))
+                        if k is not None and k in self.field_ok and k not in self.fieldH:
+                            self.fieldH[k] = f.loc(i)
                             inner = ch = True
                     continue
                 elif op == "call":
